@@ -4,17 +4,20 @@ C11 — Concurrent ingest, flush, rotation and search stay consistent.
 Property theorems about the PROTOCOL LOGIC only: the interleaving machine of `SigModel/Model/Conc.lean`
 (flush | rotation as its four steps in the order extracted from checkAndRotateColFiles /
 CleanupUnrotatedSegment | query as its two segment-list snapshots in the order extracted from
-getAllSegmentsInQuery / getAllSegmentsInAggs, followed by the read).  Every theorem quantifies over ALL
-schedules (lists of labels "which thread moves next") from the initial empty state, for any number of
-streams and queries.  `Cfg.real` is tied to the source by the go2lean call-order facts C11.* (lib/props.py).
+getAllSegmentsInQuery / getAllSegmentsInAggs, the request list de-duplicated by segment key, followed by the
+read).  Every theorem quantifies over ALL schedules (lists of labels "which thread moves next") from the
+initial empty state, for any number of streams and queries.  `Cfg.real` is tied to the source by the go2lean
+call-order facts C11.* (lib/props.py).  `Cfg.realOld` / `Reader.old` are the code BEFORE the three repairs
+recorded in known_findings.txt (count doubled, segment skipped, crash); their counterexample theorems are kept
+under names ending in `_old`.
 
 NOT decided here (see lib/props.py, `partial`): data races in the Go memory model, deadlocks, crashes and
 real scheduling — the stress worker and the `-race` build are exploration only.
 
 The machine treats the read of one request as ONE step.  Section 4 (`ReadOne`) refines exactly that step to the
-lock acquisitions of the read path and shows what the real reader does when a rotation completes between a
-check and the look-up that follows it (a segment skipped / a crash): `no_loss` for RECORD queries holds for the
-code only under the guard of `read_one_ok_partial` (count queries do not look the segment up again).
+lock acquisitions of the read path: the reader as it is reads the segment in every interleaving with the
+rotation of that segment (it falls back to the rotated metadata when the key has left the unrotated map between
+a check and its look-up); the composition of the two machines is not proved.
 
 Block `(g, k)` "has been flushed" in state `s` iff `k < s.total g`; `(s.query j).pre` is `total` at the
 moment query `j` took its first step (theorem `pre_is_flushed_at_first_step`).
@@ -26,8 +29,11 @@ import SigModel.Lemmas.C11e
 namespace SigModel.Props.C11
 open SigModel.Conc
 
-/-- the state reached from the empty engine by a schedule, with the extracted orders -/
+/-- the state reached from the empty engine by a schedule: the code as it is -/
 abbrev reach (sched : List Label) : St := run Cfg.real init sched
+
+/-- … and the code before the de-duplication of the request list by segment key -/
+abbrev reachOld (sched : List Label) : St := run Cfg.realOld init sched
 
 /-! ## 1. no loss -/
 
@@ -36,13 +42,13 @@ that were ever flushed to it: while the segment moves from open to rotated it is
 unrotated map or in the rotated map, with all its blocks.  (Depends on add-before-remove.) -/
 theorem flushed_blocks_always_visible (sched : List Label) (g : Seg) :
     nowCount (reach sched) g = (reach sched).total g :=
-  Lemmas.C11.nowCount_eq_total _ (Lemmas.C11.inv_run init sched Lemmas.C11.inv_init) g
+  Lemmas.C11.nowCount_eq_total _ (Lemmas.C11.inv_run (d := true) init sched Lemmas.C11.inv_init) g
 
 /-- … in the words of the property: every flushed block's segment is in unrotated ∪ rotated. -/
 theorem flushed_segment_in_unrot_or_rot (sched : List Label) (g : Seg) (k : Nat)
     (h : k < (reach sched).total g) :
     k < (reach sched).unrot g ∨ k < (reach sched).rot g := by
-  rcases Lemmas.C11.visible _ (Lemmas.C11.inv_run init sched Lemmas.C11.inv_init) g k h with h1 | h1
+  rcases Lemmas.C11.visible _ (Lemmas.C11.inv_run (d := true) init sched Lemmas.C11.inv_init) g k h with h1 | h1
   · exact Or.inl h1.2
   · exact Or.inr h1
 
@@ -51,7 +57,7 @@ history of that moment … -/
 theorem pre_is_flushed_at_first_step (sched : List Label) (j : Nat) (k : Bool)
     (h : ((reach sched).query j).started = false) :
     ((reach (sched ++ [.q j k])).query j).pre = (reach sched).total := by
-  have hq := Lemmas.C11.qinv_run sched j
+  have hq := Lemmas.C11.qinv_run (d := true) sched j
   have hnf : ((reach sched).query j).finished = false := by
     cases hfin : ((reach sched).query j).finished with
     | false => rfl
@@ -59,7 +65,7 @@ theorem pre_is_flushed_at_first_step (sched : List Label) (j : Nat) (k : Bool)
   simp only [reach] at *
   rw [Lemmas.C11.run_append]
   generalize run Cfg.real init sched = s at *
-  simp [run, step, qStep, h, hnf, Cfg.real, applySnap, upd]
+  simp [run, step, qStep, h, hnf, Cfg.real, Cfg.of, applySnap, upd]
 
 /-- … and it never changes afterwards. -/
 theorem pre_stable (sched : List Label) (l : Label) (j : Nat)
@@ -78,7 +84,7 @@ theorem pre_stable (sched : List Label) (l : Label) (j : Nat)
       | nil => simp [h1, h, upd]
       | cons a r => cases a <;> simp [h1, h, upd, applySnap]
   · simp only [run, List.foldl_cons, List.foldl_nil]
-    rw [Lemmas.C11.query_frame _ l j (fun k hk => hl ⟨k, hk⟩)]
+    rw [show Cfg.real = Cfg.of true from rfl, Lemmas.C11.query_frame _ l j (fun k hk => hl ⟨k, hk⟩)]
 
 /-- C11.1 (snapshots) A query whose first snapshot step follows a completed flush has that flush's segment,
 with a block count that covers the flushed block, in at least one of its two snapshots.
@@ -87,15 +93,17 @@ theorem no_loss_snapshots (sched : List Label) (j : Nat) (g : Seg) (k : Nat)
     (hs : ((reach sched).query j).started = true) (ht : ((reach sched).query j).todo = [])
     (hk : k < ((reach sched).query j).pre g) :
     (∃ n, (g, n) ∈ ((reach sched).query j).snapU ∧ k < n) ∨
-    (∃ n, (g, n) ∈ ((reach sched).query j).snapR ∧ k < n) :=
-  (Lemmas.C11.qinv_run sched j).seenR hs ht g k hk
+    (∃ n, (g, n) ∈ ((reach sched).query j).snapR ∧ k < n) := by
+  rcases (Lemmas.C11.qinv_run (d := true) sched j).seenR hs ht g k hk with h | h
+  · exact Or.inr h
+  · exact Or.inl h.1
 
 /-- C11.1 `no_loss`: in every interleaving, a finished query (record query or count query) has read every
 block whose flush had completed before the query's first step. -/
 theorem no_loss (sched : List Label) (j : Nat) (g : Seg) (k : Nat)
     (hf : ((reach sched).query j).finished = true) (hk : k < ((reach sched).query j).pre g) :
     (g, k) ∈ ((reach sched).query j).result :=
-  (Lemmas.C11.qinv_run sched j).res hf g k hk
+  (Lemmas.C11.qinv_run (d := true) sched j).res hf g k hk
 
 /-- the rotation with `removeSegKeyFromUnrotatedInfo` BEFORE `AddSegMetaToMetadata` -/
 def Cfg.removeFirst : Cfg := { Cfg.real with rotOrder := [.segmetaFile, .removeUnrot, .addMeta, .reset] }
@@ -124,37 +132,42 @@ theorem no_loss_fails_if_snapshots_reordered :
 
 /-! ## 2. at most once -/
 
-/-- C11.2 for record queries: the read drops a (segment, block) pair it has already taken
-(`processedBlocks`), so a record query returns every block at most once in every interleaving. -/
-theorem at_most_once_rrc (sched : List Label) (j : Nat)
-    (hf : ((reach sched).query j).finished = true) (hk : ((reach sched).query j).kind = .rrc) :
+/-- C11.2 `at_most_once`: in every interleaving a finished query — record query or count query — has read
+every block at most once.  (Record queries drop a (segment, block) pair already taken; the request list is
+de-duplicated by segment key, so a segment that is in both snapshots is requested once.) -/
+theorem at_most_once (sched : List Label) (j : Nat)
+    (hf : ((reach sched).query j).finished = true) :
     ((reach sched).query j).result.Nodup :=
-  (Lemmas.C11.qinv_run sched j).resRrc hf hk
+  Lemmas.C11.nodup_of_dedup _ j (Lemmas.C11.qinv_run (d := true) sched j) hf
 
-/-- C11.2 at full strength (every finished query counts every block at most once) is FALSE for the code as
-it is: the request list is not de-duplicated by segment key.  Witness: flush; the count query takes its
-unrotated snapshot; the rotation publishes the segment (`AddSegMetaToMetadata`); the query takes its rotated
-snapshot ⇒ the segment is in both snapshots and its block is counted twice.  (Replayed on the real engine by
-the suite `conc`: `c11 1 f0 q0s r0 r0 q0s q0s` → count 4 for 2 events.) -/
-theorem at_most_once_counterexample :
-    ¬ (∀ (sched : List Label) (j : Nat), ((reach sched).query j).finished = true →
-        ((reach sched).query j).result.Nodup) := by
+/-- the former witness schedule (a rotation publishes the segment between the two snapshots of a count
+query) now counts the block once -/
+example : ((reach [.flush 0, .q 0 true, .rot 0, .rot 0, .q 0 true, .q 0 true]).query 0).result = [(⟨0, 0⟩, 0)] := by
+  decide
+
+/-- C11.2 for record queries held before the repair as well (block-level `processedBlocks` filter). -/
+theorem at_most_once_rrc_old (sched : List Label) (j : Nat)
+    (hf : ((reachOld sched).query j).finished = true) (hk : ((reachOld sched).query j).kind = .rrc) :
+    ((reachOld sched).query j).result.Nodup :=
+  (Lemmas.C11.qinv_run (d := false) sched j).resRrc hf hk
+
+/-- BEFORE the repair (`Cfg.realOld`: the two request lists appended as they were) C11.2 was false: flush;
+the count query takes its unrotated snapshot; the rotation publishes the segment (`AddSegMetaToMetadata`); the
+query takes its rotated snapshot ⇒ the segment is in both snapshots and its block is counted twice.
+(Was replayed on the real engine by the suite `conc`: `c11 1 f0 q0s r0 r0 q0s q0s` → count 4 for 2 events.) -/
+theorem at_most_once_counterexample_old :
+    ¬ (∀ (sched : List Label) (j : Nat), ((reachOld sched).query j).finished = true →
+        ((reachOld sched).query j).result.Nodup) := by
   intro h
   have := h [.flush 0, .q 0 true, .rot 0, .rot 0, .q 0 true, .q 0 true] 0 (by decide)
   revert this
   decide
 
-/-- what the minimal repair (de-duplicate the appended request lists by segment key, `Cfg.dedupSeg`) does to
-the witness schedule: the block is counted once. -/
-example : ((run { Cfg.real with dedupSeg := true } init
-    [.flush 0, .q 0 true, .rot 0, .rot 0, .q 0 true, .q 0 true]).query 0).result = [(⟨0, 0⟩, 0)] := by
-  decide
-
-/-- the guard "no rotation step between the two snapshot steps" alone is NOT enough: both snapshots can
-fall into the hand-over window of a rotation (published, not yet removed from the unrotated map). -/
-theorem at_most_once_window_counterexample :
-    ∃ (sched : List Label) (j : Nat), ((reach sched).query j).finished = true ∧
-      ¬ ((reach sched).query j).result.Nodup :=
+/-- … and "no rotation step between the two snapshot steps" would not have been a sufficient guard: both
+snapshots can fall into the hand-over window of a rotation (published, not yet removed from the unrotated map). -/
+theorem at_most_once_window_counterexample_old :
+    ∃ (sched : List Label) (j : Nat), ((reachOld sched).query j).finished = true ∧
+      ¬ ((reachOld sched).query j).result.Nodup :=
   ⟨[.flush 0, .rot 0, .rot 0, .q 0 true, .q 0 true, .q 0 true], 0, by decide⟩
 
 /-- the two snapshots of a query name no segment twice -/
@@ -163,25 +176,25 @@ def SnapshotsDisjoint (q : Query) : Prop := ∀ r ∈ q.snapU, ∀ r' ∈ q.snap
 instance (q : Query) : Decidable (SnapshotsDisjoint q) := by
   unfold SnapshotsDisjoint; infer_instance
 
-/-- C11.2 partial (state guard): a finished query whose two snapshots are disjoint has read every block
-at most once. -/
-theorem at_most_once_partial (sched : List Label) (j : Nat)
-    (hf : ((reach sched).query j).finished = true)
-    (hd : SnapshotsDisjoint ((reach sched).query j)) :
-    ((reach sched).query j).result.Nodup :=
-  Lemmas.C11.nodup_of_disj _ j (Lemmas.C11.qinv_run sched j) hf hd
+/-- before the repair, partial (state guard): a finished query whose two snapshots are disjoint had read every
+block at most once … -/
+theorem at_most_once_partial_old (sched : List Label) (j : Nat)
+    (hf : ((reachOld sched).query j).finished = true)
+    (hd : SnapshotsDisjoint ((reachOld sched).query j)) :
+    ((reachOld sched).query j).result.Nodup :=
+  Lemmas.C11.nodup_of_disj _ j (Lemmas.C11.qinv_run (d := false) sched j) hf hd
 
-/-- … and the guard excludes exactly the failing class: a finished COUNT query counts some block twice
-if and only if its two snapshots share a segment. -/
-theorem count_query_nodup_iff (sched : List Label) (j : Nat)
-    (hf : ((reach sched).query j).finished = true) (hk : ((reach sched).query j).kind = .stats) :
-    ((reach sched).query j).result.Nodup ↔ SnapshotsDisjoint ((reach sched).query j) := by
+/-- … and the guard excluded exactly the failing class: a finished COUNT query counted some block twice
+if and only if its two snapshots shared a segment. -/
+theorem count_query_nodup_iff_old (sched : List Label) (j : Nat)
+    (hf : ((reachOld sched).query j).finished = true) (hk : ((reachOld sched).query j).kind = .stats) :
+    ((reachOld sched).query j).result.Nodup ↔ SnapshotsDisjoint ((reachOld sched).query j) := by
   constructor
   · intro hn
     apply Classical.byContradiction
     intro hd
-    exact Lemmas.C11.not_nodup_of_overlap _ j (Lemmas.C11.qinv_run sched j) hf hk hd hn
-  · exact at_most_once_partial sched j hf
+    exact Lemmas.C11.not_nodup_of_overlap _ j (Lemmas.C11.qinv_run (d := false) sched j) hf hk hd hn
+  · exact at_most_once_partial_old sched j hf
 
 /-- no segment is in its hand-over window (in the unrotated map and already in the rotated map) -/
 def WindowFree (s : St) : Prop := ∀ g ∈ s.segs, s.unrot g ≠ 0 → s.rot g = 0
@@ -192,24 +205,24 @@ instance (s : St) : Decidable (WindowFree s) := by
 /-- neither a rotation step nor a step of query `j` -/
 def QuietFor (j : Nat) (l : Label) : Prop := (∀ i, l ≠ .rot i) ∧ (∀ b, l ≠ .q j b)
 
-/-- C11.2 partial (schedule guard): if query `j` takes its first snapshot when no segment is in its
-hand-over window, and no rotation step runs before its second snapshot, then — whatever happens before
-and afterwards — it reads every block at most once. -/
-theorem at_most_once_no_rotation_overlap (p m rest : List Label) (j : Nat) (k k' : Bool)
-    (hns : ((reach p).query j).started = false) (hw : WindowFree (reach p))
+/-- before the repair, partial (schedule guard): if query `j` took its first snapshot when no segment was in
+its hand-over window, and no rotation step ran before its second snapshot, then — whatever happened before
+and afterwards — it read every block at most once. -/
+theorem at_most_once_no_rotation_overlap_old (p m rest : List Label) (j : Nat) (k k' : Bool)
+    (hns : ((reachOld p).query j).started = false) (hw : WindowFree (reachOld p))
     (hm : ∀ l ∈ m, QuietFor j l)
-    (hf : ((reach (p ++ .q j k :: (m ++ .q j k' :: rest))).query j).finished = true) :
-    ((reach (p ++ .q j k :: (m ++ .q j k' :: rest))).query j).result.Nodup :=
+    (hf : ((reachOld (p ++ .q j k :: (m ++ .q j k' :: rest))).query j).finished = true) :
+    ((reachOld (p ++ .q j k :: (m ++ .q j k' :: rest))).query j).result.Nodup :=
   Lemmas.C11.quiet_nodup p m rest j k k' hns hw hm hf
 
-/-- the guards are satisfiable: a rotation that completes before the count query starts, flushes woven
-through the query — nothing is counted twice (and nothing is lost). -/
+/-- the old guards were satisfiable: a rotation that completes before the count query starts, flushes woven
+through the query — nothing counted twice (and nothing lost). -/
 example :
     let p : List Label := [.flush 0, .flush 1, .rot 0, .rot 0, .rot 0, .rot 0, .flush 0]
     let sched := p ++ .q 0 true :: ([.flush 1, .flush 0] ++ .q 0 true :: [.rot 1, .q 0 true])
-    ((reach p).query 0).started = false ∧ WindowFree (reach p) ∧
-    ((reach sched).query 0).finished = true ∧ SnapshotsDisjoint ((reach sched).query 0) ∧
-    ((reach sched).query 0).result = [(⟨1, 0⟩, 0), (⟨0, 1⟩, 0), (⟨0, 0⟩, 0)] := by
+    ((reachOld p).query 0).started = false ∧ WindowFree (reachOld p) ∧
+    ((reachOld sched).query 0).finished = true ∧ SnapshotsDisjoint ((reachOld sched).query 0) ∧
+    ((reachOld sched).query 0).result = [(⟨1, 0⟩, 0), (⟨0, 1⟩, 0), (⟨0, 0⟩, 0)] := by
   decide
 
 /-! ## 3. quiescence -/
@@ -224,9 +237,9 @@ theorem quiescent_eq_sequential (sched : List Label) (hq : Quiescent (reach sche
     (∀ g, (reach sched).rot g = (reach seqSched).rot g) ∧
     (∀ g, (reach sched).total g = (reach seqSched).total g) ∧
     (reach sched).segs = (reach seqSched).segs := by
-  have hrel := Lemmas.C11.rel_run sched init init Lemmas.C11.inv_init Lemmas.C11.inv_init Lemmas.C11.rel_refl_init
-  have hc := Lemmas.C11.inv_run init sched Lemmas.C11.inv_init
-  have ha := Lemmas.C11.inv_run init (seqOf Cfg.real init sched) Lemmas.C11.inv_init
+  have hrel := Lemmas.C11.rel_run (d := true) sched init init Lemmas.C11.inv_init Lemmas.C11.inv_init Lemmas.C11.rel_refl_init
+  have hc := Lemmas.C11.inv_run (d := true) init sched Lemmas.C11.inv_init
+  have ha := Lemmas.C11.inv_run (d := true) init (seqOf Cfg.real init sched) Lemmas.C11.inv_init
   have hce := Lemmas.C11.contents_eq _ _ hc ha hrel hq
   exact ⟨fun g => (hce g).1, fun g => (hce g).2, hrel.total, hrel.segs⟩
 
@@ -235,21 +248,22 @@ maps: nothing lost, nothing doubled, nothing invented. -/
 theorem quiescent_contents_exact (sched : List Label) (hq : Quiescent (reach sched)) (g : Seg) :
     ((reach sched).unrot g = (reach sched).total g ∧ (reach sched).rot g = 0) ∨
     ((reach sched).unrot g = 0 ∧ (reach sched).rot g = (reach sched).total g) := by
-  have hc := Lemmas.C11.inv_run init sched Lemmas.C11.inv_init
+  have hc : Lemmas.C11.Inv (reach sched) := Lemmas.C11.inv_run (d := true) init sched Lemmas.C11.inv_init
   obtain ⟨i, k⟩ := g
+  simp only [reach] at *
+  generalize run Cfg.real init sched = s at *
   have hu := hc.unrot_eq i k
   have hr := hc.rot_eq i k
   have h0 := hq i
-  simp only [reach] at *
   simp [Lemmas.C11.removed, Lemmas.C11.added, h0] at hu hr
-  by_cases h1 : k < ((run Cfg.real init sched).store i).seq
+  by_cases h1 : k < (s.store i).seq
   · right
-    have : ¬ k = ((run Cfg.real init sched).store i).seq := by omega
+    have : ¬ k = (s.store i).seq := by omega
     simp [h1, this] at hu hr
     exact ⟨hu, hr⟩
   · left
     simp [h1] at hr
-    by_cases h2 : k = ((run Cfg.real init sched).store i).seq
+    by_cases h2 : k = (s.store i).seq
     · subst h2
       simp at hu
       exact ⟨by rw [hu, hc.tot_eq i], hr⟩
@@ -259,46 +273,55 @@ theorem quiescent_contents_exact (sched : List Label) (hq : Quiescent (reach sch
 /-! ## 4. the read of one request, at lock granularity -/
 
 open SigModel.Conc.ReadOne in
-/-- C11.1 at lock granularity, full strength: "whatever the interleaving with the rotation of its segment,
-a finished read of a request has read the segment" is FALSE for the code as it is.  Witness: the check
-`IsSegKeyUnrotated` in GetSSRsFromQSR answers yes, the rotation runs to `removeSegKeyFromUnrotatedInfo`, the
-look-up in CheckMicroIndicesForUnrotated finds nothing and the segment is skipped: its events are silently
-missing from the result.  (Replayed on the real engine: suite `conc`, op `c11w ssr`.) -/
-theorem read_one_skipped_counterexample :
-    ¬ (∀ (sched : List RLabel), (rrun false {} sched).pc = .done →
-        ((rrun false {} sched).outcome = some .readUnrotated ∨ (rrun false {} sched).outcome = some .readRotated)) := by
+/-- C11.1 / "no crashes" at lock granularity: whatever the interleaving with the rotation of its segment, a
+finished read of a request has read the segment — from the unrotated entry or from the rotated metadata.  The
+reader checks `IsSegKeyUnrotated` and looks the key up under a second lock acquisition; when the rotation has
+removed the key in between, it asks again and takes the rotated path (GetSSRsFromQSR,
+initNewMultiColumnReader), and `SharedMultiColReaders.Close` is idempotent. -/
+theorem read_one_reads_segment (sched : List RLabel) (hd : (rrun .real {} sched).pc = .done) :
+    (rrun .real {} sched).outcome = some .readUnrotated ∨ (rrun .real {} sched).outcome = some .readRotated :=
+  (Lemmas.C11.ReadOne.goodReal_run sched {} Lemmas.C11.ReadOne.goodReal_init).1 hd
+
+open SigModel.Conc.ReadOne in
+/-- … in particular the read never skips the segment and never crashes (was `read_one_crash_counterexample`). -/
+theorem read_one_never_skips_never_crashes (sched : List RLabel) :
+    (rrun .real {} sched).outcome ≠ some .skipped ∧ (rrun .real {} sched).outcome ≠ some .crashed := by
+  have h := Lemmas.C11.ReadOne.goodReal_run sched {} Lemmas.C11.ReadOne.goodReal_init
+  by_cases hd : (rrun .real {} sched).pc = .done
+  · rcases h.1 hd with h1 | h1 <;> simp [h1]
+  · simp [h.2 hd]
+
+open SigModel.Conc.ReadOne in
+/-- BEFORE the repair the statement was false: the check in GetSSRsFromQSR answered yes, the rotation ran to
+`removeSegKeyFromUnrotatedInfo`, the look-up in CheckMicroIndicesForUnrotated found nothing and the segment was
+skipped — its events silently missing.  (Was replayed on the real engine: suite `conc`, op `c11w ssr`.) -/
+theorem read_one_skipped_counterexample_old :
+    ¬ (∀ (sched : List RLabel), (rrun .old {} sched).pc = .done →
+        ((rrun .old {} sched).outcome = some .readUnrotated ∨ (rrun .old {} sched).outcome = some .readRotated)) := by
   intro h
   have := h [.read, .rot, .rot, .rot, .read] (by decide)
   revert this
   decide
 
 open SigModel.Conc.ReadOne in
-/-- … and the same window one layer down ends in the double release of the FD semaphore, i.e. a crash of the
-process.  (Replayed on the real engine: suite `conc`, op `c11w reader`.) -/
-theorem read_one_crash_counterexample :
-    ∃ (sched : List RLabel), (rrun false {} sched).outcome = some .crashed :=
+/-- … and the same window one layer down ended in the double release of the FD semaphore, a crash of the
+process.  (Was replayed on the real engine: suite `conc`, op `c11w reader`.) -/
+theorem read_one_crash_counterexample_old :
+    ∃ (sched : List RLabel), (rrun .old {} sched).outcome = some .crashed :=
   ⟨[.read, .read, .read, .rot, .rot, .rot, .read], by decide⟩
 
 open SigModel.Conc.ReadOne in
-/-- C11.1 at lock granularity, partial: if the `removeUnrot` step of the segment's rotation does not fall
-between a check and its look-up, a finished read has read the segment (from the unrotated entry or from the
-rotated metadata) — in particular nothing is skipped and nothing crashes. -/
-theorem read_one_ok_partial (sched : List RLabel) (hg : noRemoveInWindow {} sched = true)
-    (hd : (rrun false {} sched).pc = .done) :
-    (rrun false {} sched).outcome = some .readUnrotated ∨ (rrun false {} sched).outcome = some .readRotated :=
-  (Lemmas.C11.ReadOne.good_run sched {} Lemmas.C11.ReadOne.good_init hg).2.1 hd
+/-- before the repair, partial: if the `removeUnrot` step did not fall between a check and its look-up, a
+finished read had read the segment. -/
+theorem read_one_ok_partial_old (sched : List RLabel) (hg : noRemoveInWindow {} sched = true)
+    (hd : (rrun .old {} sched).pc = .done) :
+    (rrun .old {} sched).outcome = some .readUnrotated ∨ (rrun .old {} sched).outcome = some .readRotated :=
+  (Lemmas.C11.ReadOne.goodOld_run sched {} Lemmas.C11.ReadOne.goodOld_init hg).2.1 hd
 
 open SigModel.Conc.ReadOne in
-/-- the guard is satisfiable with a rotation that does run concurrently with the read -/
+/-- the old guard was satisfiable with a rotation that does run concurrently with the read -/
 example : noRemoveInWindow {} [.rot, .read, .read, .rot, .rot, .read, .rot] = true ∧
-    (rrun false {} [.rot, .read, .read, .rot, .rot, .read, .rot]).outcome = some .readRotated := by
+    (rrun .old {} [.rot, .read, .read, .rot, .rot, .read, .rot]).outcome = some .readRotated := by
   decide
-
-open SigModel.Conc.ReadOne in
-/-- what the minimal repair achieves: a reader that checks and looks up under ONE lock acquisition never
-skips the segment and never crashes, in every interleaving (given add-before-remove). -/
-theorem read_one_never_fails_if_lookup_atomic (sched : List RLabel) :
-    (rrun true {} sched).outcome ≠ some .skipped ∧ (rrun true {} sched).outcome ≠ some .crashed :=
-  (Lemmas.C11.ReadOne.goodAtomic_run sched {} (by simp [Lemmas.C11.ReadOne.GoodAtomic])).2.2
 
 end SigModel.Props.C11
